@@ -1994,3 +1994,71 @@ func c16r11(c *Ctx, r *Report) {
 	}
 	r.floor("action types whose handler reaches the executor", len(ks), 15)
 }
+
+// c09r10: when --tail trims the input, UpdateList keeps the selected items that are still in the window.
+// Whether an entry of the old selection is kept may depend on item indexes (the window's lowest index) only;
+// Merger.Length() is the number of MATCHES under the current query, not the number of items, and must not
+// bound the window (D39: maxIndex = minIndex + merger.Length(); with a query that matches a few items, a
+// selected item that is still listed lost its selection on the next trim).
+func c09r10(c *Ctx, r *Report) {
+	l := c.L
+	r.rule("C09-R10", "A (the filter's conditions do not consult the match count)", "P1",
+		"in Terminal.UpdateList, the conditions under which an entry of the old selection is copied into the new selection do not depend on a Merger.Length() result",
+		"with --tail and an active query, selected items that are still in the list silently lose their selection: {+} and the accepted output miss them")
+	ul := l.Fn("fzf", "(*Terminal).UpdateList")
+	mlen := l.Fn("fzf", "(*Merger).Length")
+	fSel := l.Field("fzf", "Terminal", "selected")
+	if ul == nil || mlen == nil || fSel == nil {
+		r.unest("anchors", token.NoPos, nil, "anchors Terminal.UpdateList / Merger.Length / Terminal.selected", "cannot resolve")
+		return
+	}
+	n := 0
+	loops := natLoops(ul)
+	eachInstr(ul, func(in ssa.Instruction) {
+		mu, ok := in.(*ssa.MapUpdate)
+		if !ok {
+			return
+		}
+		// the fresh map must reach a store into Terminal.selected
+		toSel := false
+		if mm, ok := mu.Map.(*ssa.MakeMap); ok && mm.Referrers() != nil {
+			for _, ref := range *mm.Referrers() {
+				if st, ok := ref.(*ssa.Store); ok {
+					if fld, _ := fieldOf(st.Addr); fld == fSel {
+						toSel = true
+					}
+				}
+			}
+		}
+		if !toSel {
+			return
+		}
+		n++
+		bad := ""
+		// the filter's own conditions: the branches inside the loop that ranges over the old selection
+		var lp *natLoop
+		for i := range loops {
+			if loops[i].body[mu.Block()] && (lp == nil || len(loops[i].body) < len(lp.body)) {
+				lp = &loops[i]
+			}
+		}
+		if lp == nil {
+			r.unest(fmt.Sprintf("%s:kept selection #%d", relName(ul), n), mu.Pos(), ul, "the copy sits in a loop over the old selection", "no enclosing loop found")
+			return
+		}
+		for b := range lp.body {
+			iff, ok := b.Instrs[len(b.Instrs)-1].(*ssa.If)
+			if !ok {
+				continue
+			}
+			for w := range backwardSlice(iff.Cond, func(*ssa.CallCommon) bool { return true }, nil) {
+				if call, ok := w.(*ssa.Call); ok && callIs(call.Common(), mlen) {
+					bad = l.pos(iff.Cond.Pos())
+				}
+			}
+		}
+		r.check(bad == "", fmt.Sprintf("%s:kept selection #%d is bounded by item indexes only", relName(ul), n), mu.Pos(), ul,
+			"no condition of the filter consults the match count", fmt.Sprintf("the condition at %s depends on Merger.Length(), the number of matches: with a query, items beyond minIndex+matches are dropped from the selection although they were not trimmed", bad))
+	})
+	r.floor("entries copied into the filtered selection", n, 1)
+}
